@@ -264,7 +264,7 @@ class SizeFacts:
         return False
 
 
-def check_buffer(prog, f, buf, size_name, eff, entry=None, depth=0, report=None, seen=None, entry_size=None, ctxname=''):
+def check_buffer(prog, f, buf, size_name, eff, entry=None, depth=0, report=None, seen=None, entry_size=None, ctxname='', unit=1, rule='DATASIZE-DOM', nullrule='NULL-DOM', follow_slots=True):
     """check all accesses through `buf` in f.  size_name: variable holding the size in f (or None),
     entry: dict lvalue -> B facts holding at function entry (from the caller), entry_size: SizeFacts at entry when the size is not passed.
     report(kind, ok, fn, node, msg)"""
@@ -308,7 +308,58 @@ def check_buffer(prog, f, buf, size_name, eff, entry=None, depth=0, report=None,
         b = bd.ev_at(rn, point)
         return b.lo is not None and b.lo >= 1
 
+    # "remaining request" idiom: the size variable is decremented by x wherever a running offset T is advanced by the same x
+    # (len -= n ; total += n).  Offsets are then measured from ptr + T and compared with the *remaining* size.
+    co_base = None
+    if size_name:
+        from .util import assigned_lvalues as _al
+        decs = [(f.s(r) if r is not None else None) for (lv, n_, r) in _al(f) if lv == size_name and n_['k'] == 'CompoundAssignOperator' and n_['op'] == '-=']
+        if decs:
+            cands = {}
+            for (lv, n_, r) in _al(f):
+                if n_['k'] == 'CompoundAssignOperator' and n_['op'] == '+=' and r is not None and lv != size_name:
+                    cands.setdefault(lv, []).append(f.s(r))
+            from .util import local_defs as _ld
+            _defs = _ld(f)
+
+            def le_req(x, y):
+                # x == y, or x is the result of a call that was asked for y items (callee contract: returns <= requested)
+                if x == y:
+                    return True
+                for d in _defs.get(x, []):
+                    if d is not None:
+                        du = f.unwrap(d)
+                        if du['k'] == 'CallExpr' and any(f.s(f.unwrap(a2)) == y for a2 in f.args(du)):
+                            return True
+                return False
+            for lv, incs in cands.items():
+                ds = [d for d in decs if d is not None]
+                if len(incs) == len(ds) and all(any(le_req(x, y) for y in ds) for x in incs):
+                    co_base = lv
+            if co_base is None:
+                co_base = '#size-variable-modified-without-matching-offset'
+
+    if co_base == buf:
+        co_base = None      # the caller pointer itself is advanced together with the remaining size: offsets are relative to it
+
+    def scaled(E):
+        if co_base is not None:
+            E = dict(E)
+            if co_base.startswith('#'):
+                E[co_base] = 1
+            else:
+                cb = E.pop(co_base, 0)
+                if cb != unit:
+                    # the size variable holds the *remaining* request: an access that is not relative to ptr + T would need T == 0
+                    E['#offset-not-measured-from-' + co_base] = 1
+        if unit == 1:
+            return E
+        if any(c % unit for c in E.values()):
+            return {'#not-a-multiple-of-the-element-size': 1}
+        return {x: c // unit for x, c in E.items()}
+
     def substitute(E, point):
+        E = scaled(E)
         """replace variable atoms of E by their upper bounds (numeric, symbolic, or division form) -> list of candidate forms"""
         cands = [E]
         for atom, coef in list(E.items()):
@@ -358,11 +409,11 @@ def check_buffer(prog, f, buf, size_name, eff, entry=None, depth=0, report=None,
                             ext = lscale({x: c for x, c in F.items() if x != r}, pn.get('psz', 1))
                             if sf.covers(ext, size_name):
                                 ok = True
-            report('DATASIZE-DOM', ok, f, a.node, 'pointer walk %s %s' % (a.what, 'bounded by the checked size' if ok else 'not bounded by the size facts (%r)' % b))
+            report(rule, ok, f, a.node, 'pointer walk %s %s' % (a.what, 'bounded by the checked size' if ok else 'not bounded by the size facts (%r)' % b))
             continue
         ok = any(sf.covers(C, size_name) for C in substitute(a.extent, point))
-        report('DATASIZE-DOM', ok, f, a.node, 'access %s needs %s byte(s); size facts: %s' % (a.what, fmt(a.extent), fmt_sf(sf, sb)))
-        report('NULL-DOM', nonnull(point, a.ptr_root), f, a.node, 'access %s: %s %s' % (a.what, a.ptr_root, 'proved non-NULL' if nonnull(point, a.ptr_root) else 'NOT proved non-NULL here'))
+        report(rule, ok, f, a.node, 'access %s needs %s byte(s); size facts: %s' % (a.what, fmt(a.extent), fmt_sf(sf, sb)))
+        report(nullrule, nonnull(point, a.ptr_root), f, a.node, 'access %s: %s %s' % (a.what, a.ptr_root, 'proved non-NULL' if nonnull(point, a.ptr_root) else 'NOT proved non-NULL here'))
 
     for (c, ai, po) in passes:
         cal = c.get('callee')
@@ -373,8 +424,8 @@ def check_buffer(prog, f, buf, size_name, eff, entry=None, depth=0, report=None,
             ln = args[LEN_ARG[cal][ai]]
             E = ladd(po[1], lin(f, ln))
             ok = any(sf.covers(C, size_name) for C in substitute(E, point))
-            report('DATASIZE-DOM', ok, f, c, '%s through %s needs %s byte(s); size facts: %s' % (cal, f.s(args[ai]), fmt(E), fmt_sf(sf, sb)))
-            report('NULL-DOM', nonnull(point, po[0]), f, c, '%s: %s %s' % (cal, po[0], 'proved non-NULL' if nonnull(point, po[0]) else 'NOT proved non-NULL here'))
+            report(rule, ok, f, c, '%s through %s needs %s byte(s); size facts: %s' % (cal, f.s(args[ai]), fmt(E), fmt_sf(sf, sb)))
+            report(nullrule, nonnull(point, po[0]), f, c, '%s: %s %s' % (cal, po[0], 'proved non-NULL' if nonnull(point, po[0]) else 'NOT proved non-NULL here'))
             continue
         if cal in STRING_READERS and (STRING_READERS[cal] is None or ai in STRING_READERS[cal]):
             # NUL-terminated read: requires a dominating bounded terminating write (snprintf with size >= 1) to the same pointer
@@ -389,10 +440,22 @@ def check_buffer(prog, f, buf, size_name, eff, entry=None, depth=0, report=None,
             report('STR-TERM', ok, f, c, '%s (%s) reads a NUL-terminated string from the caller buffer: %s' % (
                 cal, f.s(args[ai]), 'terminated by a dominating snprintf and size >= 1 known' if ok else 'no proof that size >= 1 (snprintf writes nothing for size 0) — reads beyond the size'))
             continue
+        if cal in prog.fns and not follow_slots:
+            # block mode: every (ptr, len) function is its own instance; a call passing ptr + off with the callee's `len` bound to n
+            # is an access of off + n items
+            callee = prog.fns[cal][0]
+            li = [k2 for k2, q in enumerate(callee.params) if q['n'] in ('len', 'count', 'bufferlen', 'readcount', 'writecount')]
+            if ai < len(callee.params) and li and li[0] < len(args):
+                E = ladd(po[1], lscale(lin(f, args[li[0]]), unit))
+                ok = any(sf.covers(C, size_name) for C in substitute(E, point))
+                report(rule, ok, f, c, 'call %s with %s items at offset %s needs %s; size facts: %s' % (cal, f.s(args[li[0]]), fmt(po[1]), fmt(E), fmt_sf(sf, sb)))
+            else:
+                report(rule, False, f, c, 'caller buffer passed to %s without a recognisable length argument' % cal)
+            continue
         if cal in prog.fns:
             callee = prog.fns[cal][0]
             if ai >= len(callee.params):
-                report('DATASIZE-DOM', False, f, c, 'pointer passed to variadic position of %s' % cal)
+                report(rule, False, f, c, 'pointer passed to variadic position of %s' % cal)
                 continue
             pbuf = callee.params[ai]['n']
             # which parameter receives the size?
@@ -411,9 +474,11 @@ def check_buffer(prog, f, buf, size_name, eff, entry=None, depth=0, report=None,
             if rn:
                 ent[pbuf] = bd.ev_at(rn[0], point)
             if lconst(po[1]) != 0:
-                report('DATASIZE-DOM', False, f, c, 'pointer with offset %s passed to %s: not analysed' % (fmt(po[1]), cal))
+                report(rule, False, f, c, 'pointer with offset %s passed to %s: not analysed' % (fmt(po[1]), cal))
                 continue
-            check_buffer(prog, callee, pbuf, psize, eff, ent, depth + 1, report, seen, es, ctxname)
+            check_buffer(prog, callee, pbuf, psize, eff, ent, depth + 1, report, seen, es, ctxname, unit, rule, nullrule, follow_slots)
+            continue
+        if cal is None and not follow_slots:
             continue
         if cal is None:
             # indirect call (container command hook): analyse every function in the slot
@@ -426,9 +491,9 @@ def check_buffer(prog, f, buf, size_name, eff, entry=None, depth=0, report=None,
                         for aj, a in enumerate(args):
                             if aj != ai and size_name and f.s(f.unwrap(a)) == size_name and aj < len(callee.params):
                                 psize = callee.params[aj]['n']
-                        check_buffer(prog, callee, callee.params[ai]['n'], psize, eff, {}, depth + 1, report, seen, None, ctxname)
+                        check_buffer(prog, callee, callee.params[ai]['n'], psize, eff, {}, depth + 1, report, seen, None, ctxname, unit, rule, nullrule, follow_slots)
                 continue
-        report('DATASIZE-DOM', False, f, c, 'caller buffer passed to %s which is not modelled' % cal)
+        report(rule, False, f, c, 'caller buffer passed to %s which is not modelled' % cal)
 
 
 def fmt(E):
